@@ -23,21 +23,23 @@ inductive Control where
   | msNotification | msShowDeleted | msServerLinkTTL
   deriving Repr, DecidableEq
 
+def digitStep (acc : Nat) (d : UInt8) : Option Nat :=
+  if 48 ≤ d.toNat ∧ d.toNat ≤ 57 then some (acc * 10 + (d.toNat - 48)) else none
+
 def parseDigits : List UInt8 → Option Nat
   | [] => none
-  | ds => ds.foldlM (fun acc d => if 48 ≤ d.toNat ∧ d.toNat ≤ 57 then some (acc * 10 + (d.toNat - 48)) else none) 0
+  | ds => ds.foldlM digitStep 0
+
+def int64Range (v : Int) : Option Int := if -(2^63) ≤ v ∧ v < 2^63 then some v else none
 
 /-- `strconv.ParseInt(s, 10, 64)` -/
 def parseDecimal (s : Bytes) : Option Int :=
   match s with
   | [] => none
   | c :: rest =>
-    let (neg, ds) := if c.toNat = 45 then (true, rest) else if c.toNat = 43 then (false, rest) else (false, c :: rest)
-    match parseDigits ds with
-    | none => none
-    | some n =>
-      let v : Int := if neg then -(n : Int) else n
-      if -(2^63) ≤ v ∧ v < 2^63 then some v else none
+    if c.toNat = 45 then (parseDigits rest).bind (fun n => int64Range (-(n : Int)))
+    else if c.toNat = 43 then (parseDigits rest).bind (fun n => int64Range (n : Int))
+    else (parseDigits (c :: rest)).bind (fun n => int64Range (n : Int))
 
 /-- children of a control value after gldap's "re-parse the octet string" step
     (`if value.Value != nil { DecodePacketErr(value.Data.Bytes()); ...; value.AppendChild(..) }`) -/
